@@ -510,10 +510,10 @@ def summarize(case):
 def parts(tier):
     return [
         Part(name="frames", evaluate=evaluate if tier == "quick" else evaluate_both, strategy=strategy, summarize=summarize,
-             budget={"quick": 220, "thorough": 20000}, min_nontrivial={"quick": 30, "thorough": 2500}),
+             budget={"quick": 220, "thorough": 40000}, min_nontrivial={"quick": 30, "thorough": 2500}),
         Part(name="predictor", evaluate=evaluate_predictor, strategy=strategy_predictor,
              summarize=lambda c: {k: v for k, v in c.items()},
-             budget={"quick": 60, "thorough": 4000}, min_nontrivial={"quick": 8, "thorough": 500}),
+             budget={"quick": 60, "thorough": 8000}, min_nontrivial={"quick": 8, "thorough": 500}),
     ]
 
 
